@@ -286,20 +286,65 @@ Definition run_prelude (p : prelude) (e : env) : option env :=
 (* the caller's variables behind &mut parameters *)
 Definition store := list (N * N).
 
+(* ------------------------------------------------------------------ *)
+(* unmock_with (attr.rs:22-44, 164-206; mod.rs:413-442)               *)
+(* ------------------------------------------------------------------ *)
+
+(* one expression of an explicit parameter list `path(e1, .., en)`: the grammar of the model is
+   `self` and parameter identifiers *)
+Inductive uexpr := USelf | UParam (i : nat).
+(* one entry of `unmock_with=[..]`: `_`, `path`, `path(exprs)`; functions are identified by a number *)
+Inductive uentry := UNone | UPath (fid : N) | UCall (fid : N) (params : list uexpr).
+
+(* Attr::get_unmock_fn(index): purely positional *)
+Definition get_unmock_fn (uw : option (list uentry)) (index : nat) : option (N * option (list uexpr)) :=
+  match uw with
+  | None => None
+  | Some l => match nth_error l index with
+              | Some (UPath f) => Some (f, None)
+              | Some (UCall f ps) => Some (f, Some ps)
+              | _ => None
+              end
+  end.
+
+(* generate(): `trait_info.methods.iter().enumerate()` runs over ALL fn items of the trait, the
+   receiver-less provided ones (Mockable::Skip, `None` in that vector) included; [items] says for
+   each fn item whether it is mocked.  The k-th mocked method has this index: *)
+Fixpoint method_index (items : list bool) (k : nat) : option nat :=
+  match items with
+  | [] => None
+  | true :: r => match k with O => Some O | S k' => option_map S (method_index r k') end
+  | false :: r => option_map S (method_index r k)
+  end.
+
+(* Attr::validate: the list must have one entry per fn item *)
+Definition unmock_with_valid (items : list bool) (uw : option (list uentry)) : bool :=
+  match uw with None => true | Some l => Nat.eqb (length l) (length items) end.
+
+Definition unmock_of (items : list bool) (uw : option (list uentry)) (k : nat) : option (N * option (list uexpr)) :=
+  match method_index items k with Some i => get_unmock_fn uw i | None => None end.
+
 Section Runtime.
   (* result values *)
   Variable R : Type.
 
   Definition answer_fn := selfv -> list aval -> store -> R * store.
 
+  (* what a registered real function is called with: the mock (if `self` is passed) and values *)
+  Inductive rarg := RSelf (s : selfv) | RVal (v : aval).
+  Definition real_fn := list rarg -> store -> R * store.
+
   (* what the matched call pattern holds *)
   Inductive responder :=
   | KReturn (out : R)
   | KAnswer (f : answer_fn)
-  | KUnmock
-  | KDefault.
+  | KUnmock                   (* applies_unmocked(), and the trait registers no function for this method *)
+  | KDefault
+  | KUnmockArm (fid : N) (f : real_fn) (ps : option (list uexpr)).
+                              (* applies_unmocked() / partial fall-through, function fid registered in form ps *)
 
-  Inductive cont := CAnswer (f : answer_fn) | CUnmock | CDefault.
+  Inductive cont := CAnswer (f : answer_fn) | CUnmock | CDefault
+                  | CUnmockArm (fid : N) (f : real_fn) (ps : option (list uexpr)).
   Inductive evalres := EReturn (out : R) | EContinue (c : cont) (i : inputs).
 
   (* src/eval.rs:25-74 after a successful match: the inputs were moved in, the matcher saw
@@ -310,11 +355,13 @@ Section Runtime.
     | KAnswer f => EContinue (CAnswer f) i
     | KUnmock => EContinue CUnmock i
     | KDefault => EContinue CDefault i
+    | KUnmockArm fid f ps => EContinue (CUnmockArm fid f ps) i
     end.
 
   Inductive event :=
   | EvEval (i : inputs)                       (* eval ran; the matcher was shown i *)
-  | EvAnswer (s : selfv) (args : list aval).  (* the answer function ran with these *)
+  | EvAnswer (s : selfv) (args : list aval)   (* the answer function ran with these *)
+  | EvReal (fid : N) (rargs : list rarg).     (* the registered real function fid ran with these *)
 
   Inductive result := Returned (r : R) | Reported.   (* cont.report(..) : panics *)
 
@@ -322,6 +369,27 @@ Section Runtime.
 
   Definition apply_answer (f : answer_fn) (i : inputs) (s : selfv) (args : list aval) (st : store) : outcome :=
     let (r, st') := f s args st in ([EvEval i; EvAnswer s args], Returned r, st').
+
+  Definition apply_real (fid : N) (f : real_fn) (i : inputs) (rargs : list rarg) (st : store) : outcome :=
+    let (r, st') := f rargs st in ([EvEval i; EvReal fid rargs], Returned r, st').
+
+  (* the expressions of an explicit list, evaluated left to right in the arm's environment *)
+  Definition eval_uexpr (e : env) (x : uexpr) : option (rarg * env) :=
+    match x with
+    | USelf => match move_self e SxSelf with Some (s, e1) => Some (RSelf s, e1) | None => None end
+    | UParam i => match eval_atom e (AId i) with Some (v, e1) => Some (RVal v, e1) | None => None end
+    end.
+  Fixpoint eval_uexprs (e : env) (l : list uexpr) : option (list rarg * env) :=
+    match l with
+    | [] => Some ([], e)
+    | x :: r => match eval_uexpr e x with
+                | Some (a, e1) => match eval_uexprs e1 r with
+                                  | Some (as_, e2) => Some (a :: as_, e2)
+                                  | None => None
+                                  end
+                | None => None
+                end
+    end.
 
   (* None = the body does not type-check under move semantics (use of a moved or unbound name) *)
   Definition exec_body (b : body) (e : env) (resp : responder) (st : store) : option outcome :=
@@ -337,6 +405,20 @@ Section Runtime.
             match eval_atoms e3 fn_params with None => None | Some (args, _) =>
             Some (apply_answer f i s args st)
             end end end
+        | EContinue (CUnmockArm fid f ps) i' =>
+            (* mod.rs:413-442  `Eval::Continue(Continuation::Unmock, #eval_pattern) => #unmock_path(..)` *)
+            match bind_tterm e1 pat i' with None => None | Some e2 =>
+            match ps with
+            | None =>                                   (* `path(self, #fn_params)` *)
+                match move_self e2 answer_self with None => None | Some (s, e3) =>
+                match eval_atoms e3 fn_params with None => None | Some (args, _) =>
+                Some (apply_real fid f i (RSelf s :: map RVal args) st)
+                end end
+            | Some l =>                                 (* `path(#params)` *)
+                match eval_uexprs e2 l with None => None | Some (rargs, _) =>
+                Some (apply_real fid f i rargs st)
+                end
+            end end
         | EContinue _ _ => Some ([EvEval i], Reported, st)
         end end end
     | BPolonius pre self_ref eval_params pat_no_mut exit_t pat_all answer_self fn_params =>
@@ -381,8 +463,9 @@ Section Runtime.
   Definition drop_unpolled (f : future) (st : store) : outcome := ([], Reported, st).
 End Runtime.
 
-Arguments KReturn {R}. Arguments KAnswer {R}. Arguments KUnmock {R}. Arguments KDefault {R}.
-Arguments CAnswer {R}. Arguments CUnmock {R}. Arguments CDefault {R}.
+Arguments KReturn {R}. Arguments KAnswer {R}. Arguments KUnmock {R}. Arguments KDefault {R}. Arguments KUnmockArm {R}.
+Arguments CAnswer {R}. Arguments CUnmock {R}. Arguments CDefault {R}. Arguments CUnmockArm {R}.
+Arguments apply_real {R}.
 Arguments EReturn {R}. Arguments EContinue {R}.
 
 Arguments Returned {R}. Arguments Reported {R}.
